@@ -74,6 +74,17 @@ def _ref_name(prog, cur_mod, target_mod, name, form):
     raise ValueError(form)
 
 
+def spell_path(path, how):
+    """Another spelling of the same sequence of non-empty segments (the same location in every store)."""
+    if how == "trail":
+        return path + "/"
+    if how == "dbl":
+        return path.replace("/", "//", 1) if path.count("/") == 1 else "/".join(path.split("/")[:2]) + "//" + "/".join(path.split("/")[2:])
+    if how == "lead":
+        return "/" + path
+    return path
+
+
 def _rt_expr(a):
     """A run-time argument: a local name, or (after an `rtx` edit) an expression around it: `(r0, 3)`."""
     return a["e"] if a.get("x") is None else f"({a['e']}, {a['x']!r})"
@@ -129,7 +140,7 @@ def render_func(prog, fname):
         elif t == "keep":
             g = prog["funcs"][it["f"]]
             nm = _ref_name(prog, cur, g["mod"], it["f"], "direct" if g["mod"] == cur else "from")
-            pexpr = repr(it["path"]) if it.get("pathform", "lit") == "lit" else f"PATH_{fname}_{i}"
+            pexpr = repr(spell_path(it["path"], it.get("pspell"))) if it.get("pathform", "lit") == "lit" else f"PATH_{fname}_{i}"
             args = []
             for a in it.get("args", []):
                 if a["k"] == "lit":
@@ -162,7 +173,7 @@ def render_func(prog, fname):
                 else:
                     lines.append("    " + stmt)
         elif t == "load":
-            lines.append(f"    {r} = dds.load({it['path']!r})")
+            lines.append(f"    {r} = dds.load({spell_path(it['path'], it.get('pspell'))!r})")
         elif t == "shadow":
             # a module-level helper of THIS module that has the name of a tracked variable of ANOTHER module
             lines.append(f"    {r} = {it['name']}()")
